@@ -161,7 +161,15 @@ def _finish(E, log, top, ref, label="read"):
     same_array(E, whole, ref, label=label)
 
 
-def inst_chain(kind, blocks, chain, storage=None, rechunk_at=None, new_blocks=None, itemsize=8, inline=False):
+def _plain_getitem(a, index):
+    """a custom getitem of the documented signature (a, index) -> value"""
+    return a[index]
+
+
+_plain_getitem.__symx_kernel__ = True
+
+
+def inst_chain(kind, blocks, chain, storage=None, rechunk_at=None, new_blocks=None, itemsize=8, inline=False, custom_getitem=False):
     """kind: 'store' | 'ndarray'; blocks: initial blocks per axis; chain: list of raw index specs;
     rechunk_at: position in the chain after which a rechunk to `new_blocks` blocks per axis is pushed."""
     rank = len(blocks)
@@ -180,7 +188,12 @@ def inst_chain(kind, blocks, chain, storage=None, rechunk_at=None, new_blocks=No
         if storage is not None:
             src.chunks = tuple(storage)
         meta = np.empty((0,) * rank)
-        node = S.make(FAm.FromArray, src, chunks, inline_array=inline, _symx_attrs=dict(_meta=meta))
+        if custom_getitem:
+            # a user-supplied getitem(a, index): the read -- also the region read a pushed slice turns it into -- calls it with
+            # exactly those two arguments
+            node = S.make(FAm.FromArray, src, chunks, inline_array=inline, getitem=_plain_getitem, _symx_attrs=dict(_meta=meta))
+        else:
+            node = S.make(FAm.FromArray, src, chunks, inline_array=inline, _symx_attrs=dict(_meta=meta))
         ref = src if kind != "store" else SArr(src.shape, src._at, src.dtype, None)
         ref = SArr(src.shape, src._at, src.dtype, BoundsLog())  # reference: plain NumPy semantics
         steps = list(chain)
@@ -209,6 +222,8 @@ def inst_chain(kind, blocks, chain, storage=None, rechunk_at=None, new_blocks=No
                 break
             raw = _raw_index(E, steps[pos], f"k{pos}")
             cur_shape = node.shape
+            if custom_getitem and hasattr(raw[0], "start") and raw[0].start is not None:
+                E.assume(AND(raw[0].start >= 1, raw[0].start < cur_shape[0]))  # a proper sub-range: the read gets a region
             ints_ok = AND(*[int_in_range(r, n) for r, n in zip(raw, cur_shape) if not hasattr(r, "start")])
             try:
                 idx = w.fn(SU, "normalize_index")(raw, cur_shape)
@@ -255,7 +270,7 @@ def inst_chain(kind, blocks, chain, storage=None, rechunk_at=None, new_blocks=No
                 return self.a[ix]
 
         srcobj = Store(data) if kind == "store" else data
-        x = da.from_array(srcobj, chunks=cs, inline_array=inline)
+        x = da.from_array(srcobj, chunks=cs, inline_array=inline, **(dict(getitem=lambda a, i: a[i]) if custom_getitem else {}))
         want = data
         try:
             for pos, spec in enumerate(chain + [None]):
@@ -290,6 +305,7 @@ def inst_chain(kind, blocks, chain, storage=None, rechunk_at=None, new_blocks=No
     extra = f",storage={storage}" if storage else ""
     extra += f",rechunk@{rechunk_at}->{new_blocks}" if rechunk_at is not None else ""
     extra += ",inline" if inline else ""
+    extra += ",getitem=(a, index)" if custom_getitem else ""
     cost = (max(blocks) ** 2) * (3 ** len(chain)) * (2 if rechunk_at is not None else 1)
     return Instance(f"read[{kind},blocks={nm},chain={chain}{extra}]", body,
                     dict(kind=kind, blocks=blocks, chain=chain, storage=storage, rechunk_at=rechunk_at,
@@ -358,6 +374,8 @@ def instances(tier):
             out.append(inst_chain(kind, (3,), [(LO,), (F,)], rechunk_at=1, new_blocks=(3,)))
     # inline_array=True takes a different graph-construction branch for stores
     out.append(inst_chain("store", (2,), [(F,)], inline=True))
+    out.append(inst_chain("store", (2,), [(F,)], custom_getitem=True))
+    out.append(inst_chain("store", (2,), [(F,)], inline=True, custom_getitem=True))
     out.append(inst_chain("store", (2,), [("i",)], inline=True))
     out.append(inst_chain("store", (2, 2), [(F, LO)], inline=True))
     out.append(inst_chain("store", (2,), [], rechunk_at=0, new_blocks=(3,), inline=True))
